@@ -138,8 +138,10 @@ func (c *Ctx) analyseBuf(rule string, fn *ssa.Function, pi int, regionIn region,
 					continue
 				}
 				callee := cc.StaticCallee()
+				viaVar := false
 				if callee == nil {
 					callee = c.StaticCallee(cc) // a package-level function variable assigned once (Formatter = DefaultFormatter)
+					viaVar = callee != nil
 				}
 				if callee == nil {
 					for _, a := range cc.Args {
@@ -148,6 +150,54 @@ func (c *Ctx) analyseBuf(rule string, fn *ssa.Function, pi int, regionIn region,
 						}
 					}
 					continue
+				}
+				// a replaceable formatter may fail, and what it hands back beside its error need not be the caller's
+				// buffer (the library's own fallbacks exist for that case): on the path where its error is non-nil its
+				// bytes are not used as the base of anything
+				if viaVar {
+					carries := false
+					for _, a := range cc.Args {
+						if reg[a] != rNone {
+							carries = true
+						}
+					}
+					var res, errv ssa.Value
+					if carries && x.Referrers() != nil {
+						for _, r := range *x.Referrers() {
+							if ex, ok := r.(*ssa.Extract); ok {
+								if isErrorType(ex.Type()) {
+									errv = ex
+								} else if ex.Index == 0 {
+									res = ex
+								}
+							}
+						}
+					}
+					if res != nil && errv != nil && res.Referrers() != nil {
+						for _, blk := range fn.Blocks {
+							iff, ok := blk.Instrs[len(blk.Instrs)-1].(*ssa.If)
+							if !ok {
+								continue
+							}
+							cmp, ok := iff.Cond.(*ssa.BinOp)
+							if !ok || (cmp.Op != token.NEQ && cmp.Op != token.EQL) || cmp.X != errv || !isNilConst(cmp.Y) {
+								continue
+							}
+							errSide := blk.Succs[map[bool]int{true: 0, false: 1}[cmp.Op == token.NEQ]]
+							if len(errSide.Preds) != 1 {
+								continue
+							}
+							for _, r := range *res.Referrers() {
+								if _, isDbg := r.(*ssa.DebugRef); isDbg || r.Block() == nil {
+									continue
+								}
+								if errSide == r.Block() || errSide.Dominates(r.Block()) {
+									writes = writes || false
+									c.add("violated", rule, fn, r.Pos(), "after the replaceable "+calleeVarName(cc.Value)+" has failed, the bytes it handed back are used as the buffer to go on with: a formatter that returns nil beside its error loses the caller's bytes")
+								}
+							}
+						}
+					}
 				}
 				name := origin(callee).String()
 				for ai, a := range cc.Args {
@@ -946,4 +996,14 @@ func (c *Ctx) mustDerive(v ssa.Value, buf ssa.Value, depth int, seen map[ssa.Val
 		}
 	}
 	return false
+}
+
+// calleeVarName: the package-level variable a called function value is loaded from ("Formatter"), else "function value".
+func calleeVarName(v ssa.Value) string {
+	if ld, ok := v.(*ssa.UnOp); ok && ld.Op == token.MUL {
+		if g, ok := ld.X.(*ssa.Global); ok {
+			return g.Name()
+		}
+	}
+	return "function value"
 }
